@@ -233,6 +233,23 @@ SinkFan(u) ==
      sp \in StepSeqsS, op \in {0, 1}, sc \in Steps1 \cup {<<5>>}, ip \in BOOLEAN,
      c1 \in ChainsUpTo1(AtomsS), c2 \in ChainsUpTo2({Pass, Fix(1), Fix(3), Buf("linear"), Buf("next")}), ord \in Perms3}
 
+(* a producer that starts at or after the end time is never updated (it must still be     *)
+(* finalized); the consumer reads an early and the late producer                            *)
+LateIdle(u) ==
+  {MkCfg(<<TimeC(s1, 0, FALSE, <<>>), TimeC(s2, o2, FALSE, <<>>),
+           TimeC(sc, 0, ip, <<Lk(1, c1), Lk(2, c2)>>)>>, ord, e, "dag", "lateidle") :
+     s1 \in Steps1, s2 \in {<<1>>, <<3>>}, sc \in StepSeqsS, o2 \in {5, 6, 8}, ip \in BOOLEAN, e \in {5, 6},
+     c1 \in ChainsUpTo1({Pass, Buf("linear")}), c2 \in ChainsUpTo1({Pass, Buf("next")}), ord \in Perms3}
+(* a ring B -> C -> B resolved by a delay on one input of C, while another input of C is fed  *)
+(* by a third producer through a push-based adapter (both input orders)                      *)
+RingFanIn(u) ==
+  {MkCfg(<<TimeC(sa, 0, FALSE, <<>>), TimeC(sb, 0, FALSE, <<Lk(3, <<>>)>>),
+           TimeC(sc, 0, FALSE, IF first THEN <<Lk(1, <<Buf(bk)>>), Lk(2, FixVar(d, va))>>
+                                ELSE <<Lk(2, FixVar(d, va)), Lk(1, <<Buf(bk)>>)>>)>>,
+         ord, 7, RingZone(d, MaxStep(sb) + MaxStep(sc), d > 0), "ringfanin") :
+     sa \in Steps1, sb \in {<<1>>, <<2>>}, sc \in {<<1>>, <<2>>, <<1, 2>>}, d \in {0, 2, 3, 4}, va \in 1..2,
+     bk \in {"next", "linear"}, first \in BOOLEAN, ord \in Perms3}
+
 (* cycles broken by dependency-breaking / pull-counting adapters *)
 RingBreak(u) ==
   {MkCfg(<<TimeC(sa, 0, FALSE, <<Lk(2, ca)>>), TimeC(sb, ob, FALSE, <<Lk(1, cb)>>)>>,
@@ -267,10 +284,12 @@ CfgSpace(f) ==
     [] f = "fanoutshared" -> FanOutShared(0)
     [] f = "repeatinteg" -> RepeatInteg(0)
     [] f = "sinkfan"    -> SinkFan(0)
+    [] f = "lateidle"   -> LateIdle(0)
+    [] f = "ringfanin"  -> RingFanIn(0)
     [] f = "ring2tail"  -> Ring2Tail(0)
 
 AllFamilies == {"pair", "pairL", "pairXL", "pair3", "chain3t", "chain3p", "fanin2", "fanin1",
                 "fanout", "pullfanout", "diamondt", "diamondp", "pullchain2", "ring2", "ring3",
-                "ring4", "pullring", "pullringtail", "ringbreak", "wsum", "pulltwice", "ring2tail", "fanoutshared", "repeatinteg", "sinkfan"}
+                "ring4", "pullring", "pullringtail", "ringbreak", "wsum", "pulltwice", "ring2tail", "fanoutshared", "repeatinteg", "sinkfan", "lateidle", "ringfanin"}
 
 =============================================================================
